@@ -99,6 +99,18 @@ def make_general_poisson_solver(
     mat = matrix.tocsc()
     vec = vector.toarray()[:, 0]
 
+    mat_abs = abs(mat)
+
+    def is_solution(result: NumericArray, rhs: NumericArray) -> bool:
+        """Check whether `result` solves the linear problem."""
+        if not np.allclose(mat.dot(result), rhs, rtol=1e-5, atol=1e-5):
+            return False
+        # The residual test is only meaningful if the round-off error of evaluating
+        # `mat.dot(result)` is below the tolerance. This fails for the huge vectors that
+        # spsolve can return for singular matrices without raising a warning.
+        roundoff = np.finfo(float).eps * mat_abs.dot(np.abs(result))
+        return bool(np.all(roundoff <= 1e-5 + 1e-5 * np.abs(rhs)))
+
     def solve_poisson(arr: NumericArray, out: NumericArray) -> None:
         """Solves Poisson's equation using sparse linear algebra."""
         # prepare the right hand side vector
@@ -110,10 +122,13 @@ def make_general_poisson_solver(
                 warnings.simplefilter("error")  # enable warning catching
                 result = sparse.linalg.spsolve(mat, rhs)
 
-        except MatrixRankWarning:
+        except (MatrixRankWarning, RuntimeError):
             # this can happen for singular laplace matrix, e.g. when pure
-            # Neumann conditions are considered. In this case, a solution is
-            # obtained using least squares
+            # Neumann conditions are considered (MatrixRankWarning) or when a row
+            # of the matrix vanishes identically, e.g., for curvature conditions on
+            # Cartesian axes (SuperLU then raises `RuntimeError: failed to
+            # factorize matrix`). In this case, a solution is obtained using least
+            # squares
             logger.warning(
                 "Poisson problem seems to be under-determined and "
                 "could not be solved using sparse.linalg.spsolve"
@@ -122,7 +137,7 @@ def make_general_poisson_solver(
 
         else:
             # test whether the solution is good enough
-            if np.allclose(mat.dot(result), rhs, rtol=1e-5, atol=1e-5):
+            if is_solution(result, rhs):
                 logger.info("Solved Poisson problem with sparse.linalg.spsolve")
                 use_leastsquares = False
             else:
@@ -133,8 +148,12 @@ def make_general_poisson_solver(
 
         if use_leastsquares:
             # use least squares to solve an underdetermined problem
-            result = sparse.linalg.lsmr(mat, rhs)[0]
-            if not np.allclose(mat.dot(result), rhs, rtol=1e-5, atol=1e-5):
+            # (the default iteration limit `min(mat.shape)` is only sufficient in exact
+            # arithmetic and the default tolerances are looser than the test below)
+            result = sparse.linalg.lsmr(
+                mat, rhs, atol=1e-12, btol=1e-12, maxiter=10 * max(mat.shape)
+            )[0]
+            if not is_solution(result, rhs):
                 residual = np.linalg.norm(mat.dot(result) - rhs)
                 msg = f"Poisson problem could not be solved (Residual: {residual})"
                 raise RuntimeError(msg)
